@@ -291,12 +291,18 @@ def shares (n : Nat) (S : List Nat) (a : α) : List α :=
 
 /-! ### evalfn and the transformation functions of trans.py -/
 
+/-- a declared transformation together with its declared keyword arguments: the five functions of trans.py and
+    the three user callables the harness hands to the problems (`slice`: `latentvec[0:1]`; `penalty thr`:
+    `numpy.maximum(latentvec - thr, 0)`; `affine m c`: `m * latentvec + c`) -/
 inductive Trans (α : Type) where
   | identity
   | sum
   | dot (w : List α)
   | empty
   | decnSumEq (target : α)
+  | slice
+  | penalty (thr : α)
+  | affine (m c : α)
 
 /-- `trans(decnvec, latentvec, **kwargs)` -/
 def Trans.apply : Trans α → List α → List α → List α
@@ -305,6 +311,9 @@ def Trans.apply : Trans α → List α → List α → List α
   | .dot w, _, l => [Np.sum (List.zipWith (· * ·) w l)]
   | .empty, _, _ => []
   | .decnSumEq t, x, _ => [absv (Np.sum x - t)]
+  | .slice, _, l => l.take 1
+  | .penalty thr, _, l => l.map fun v => if v - thr < 0 then 0 else v - thr
+  | .affine m c, _, l => l.map fun v => m * v + c
 
 /-- `wt * vec` (numpy broadcasting of equal-length 1-D arrays) -/
 def wmul (w v : List α) : List α := List.zipWith (· * ·) w v
@@ -347,7 +356,11 @@ def triu (diag : Bool) (n : Nat) : Nat → Nat → List (List Nat)
 def calcXmap (ntaxa nparent : Nat) (uniqueParents : Bool) : List (List Nat) :=
   triu (!uniqueParents) ntaxa nparent 0
 
-/-- `_calc_uc`: `uc[i,:] = epgc.dot(bvmat[cconfig,:]) + selection_intensity * numpy.sqrt(pvar)`;
+/-- `numpy.maximum(v, 0.0)` -/
+def clip0 (v : α) : α := if v < 0 then 0 else v
+
+/-- `_calc_uc` (after repair dbcebcc2):
+    `uc[i,:] = epgc.dot(bvmat[cconfig,:]) + selection_intensity * numpy.sqrt(numpy.maximum(pvar, 0.0))`;
     `pvar i` = `vmat[tuple(cconfig)]` is handed over per cross (variance matrices are C12's subject) -/
 def calcUc [HasSqrt α] (epgc : List α) (bv : List (List α)) (intensity : α) (xmap : List (List Nat))
     (pvar : List (List α)) : List (List α) :=
@@ -355,7 +368,7 @@ def calcUc [HasSqrt α] (epgc : List α) (bv : List (List α)) (intensity : α) 
     let cconfig := xmap.getD i []
     (List.range (ncols bv)).map fun j =>
       rsum cconfig.length (fun p => vget epgc p * ent bv (cconfig.getD p 0) j)
-        + intensity * HasSqrt.sqrt (ent pvar i j)
+        + intensity * HasSqrt.sqrt (clip0 (ent pvar i j))
 
 /-- `_calc_haplomat` given the block bounds: `hmat[:,:,b,j] = mat[:,:,st:sp].dot(u[st:sp,j])` -/
 def calcHaplomat (mat : List (List (List α))) (u : List (List α)) (bounds : List (Nat × Nat)) :
